@@ -120,6 +120,23 @@ def cliCase (prog : List Phase) (stale : List Bytes) (kind : String) (k : Nat)
     | _, _ => true
   s!"{b2s dom}/{"|".intercalate outs}/{b2s timeok}"
 
+/-- idle loss: the transport died (after delivering `stale`, still unread in the queue) and the read
+    goroutine has noticed (`settle` iterations) before the operation starts -/
+def idleCase (prog : List Phase) (stale : List Bytes) (kind : String) (settle : Nat) (fuel : Nat) : String :=
+  let s0 : St := { pending := [], left := 0, kind := if kind == "eof" then .eof else .err, wleft := none,
+                   q := stale, rd := .running, lost := false }
+  let s1 := (List.range settle).foldl (fun s _ => rstep s) s0
+  let o0 : Op := { prog := prog, rb := [], outs := [] }
+  let dom := (s1.rd == .handing || s1.rd == .exited) && hasRead prog
+  let rs := schedules.map fun pat => simulate pat fuel 0 s1 o0 none
+  let outs := rs.foldl (fun acc (r, _, _) => addSet acc (match r with | some r => resName r | none => "run")) []
+  let bound := maxAdjWrites prog + 1
+  let timeok := (rs.take 2).all fun (r, _, t) =>
+    match r with
+    | some (.error _) => t < bound
+    | _ => false
+  s!"{b2s dom}/{"|".intercalate outs}/{b2s timeok}"
+
 def parseNats (s : String) : Option (List Nat) :=
   if s == "." then some [] else (s.splitOn ",").mapM String.toNat?
 
@@ -195,6 +212,14 @@ def handleC06 : List String → String
           | none => true
         if !spot then "bad-dom-table" else
         s!"{b2s ex} {need stale.flatten.length prog} {wneed prog} {maxAdjWrites prog} {";".intercalate rs}"
+      | none => "bad-op"
+    | _, _, _ => "bad-op"
+  | "idle" :: depth :: exact :: kind :: settle :: stale :: phases =>
+    match depth.toNat?, settle.toNat?, hexList stale with
+    | some d, some st, some stale =>
+      let cfg := mkCfg d (s2b exact) true [10]
+      match phases.mapM (parsePhase cfg) with
+      | some prog => idleCase prog stale kind st (4 * (prog.length + stale.length) + 24)
       | none => "bad-op"
     | _, _, _ => "bad-op"
   | "nc" :: pat :: kind :: ks :: nb :: mid :: writes =>
